@@ -137,7 +137,7 @@ func (cn *CoreNet) offerFull(t *CNode, ev *hg.Event, desc string) (accepted bool
 		defer func() { recover() }()
 		h = ev.Hex()
 	}()
-	_, gerr := t.store.GetEvent(h)
+	_, gerr := peekEvent(t.store, h)
 	accepted = gerr == nil && !t.view[h] && h != ""
 	cn.logOffer(t, ev, desc, "full", facts, accepted, err, panicked, before, lcr)
 	return accepted
@@ -192,13 +192,23 @@ func (n *CNode) chainsObs() []interface{} {
 		if q := n.w.PartByPub(p.PubKeyHex); q != nil {
 			c = q.Num
 		}
-		evs, _ := n.store.ParticipantEvents(p.PubKeyString(), -1)
+		// (a rolling window smaller than the chain lists its tail only)
+		from := 0
+		evs, err := n.store.ParticipantEvents(p.PubKeyString(), -1)
+		for err != nil && from <= known[id] {
+			from++
+			evs, err = n.store.ParticipantEvents(p.PubKeyString(), from-1)
+		}
 		idx := []int{}
 		okc := true
 		for k, h := range evs {
-			ev, err := n.store.GetEvent(h)
+			ev, err := peekEvent(n.store, h)
 			if err != nil {
-				okc = false
+				if n.cache >= 1000 {
+					okc = false
+				} else {
+					idx = append(idx, from+k) // left the event cache: listed, not readable
+				}
 				continue
 			}
 			idx = append(idx, ev.Index())
@@ -209,7 +219,7 @@ func (n *CNode) chainsObs() []interface{} {
 				okc = false
 			}
 		}
-		res = append(res, map[string]interface{}{"c": c, "idx": idx, "linked": okc, "last": known[id]})
+		res = append(res, map[string]interface{}{"c": c, "idx": idx, "linked": okc, "last": known[id], "from": from})
 	}
 	return res
 }
@@ -327,6 +337,23 @@ func tamperings() []tamper {
 		m := ms
 		ts = append(ts, tamper{fmt.Sprintf("sig-malformed-%d", i), false, func(e *hg.Event, c *tctx) { e.Signature = m }})
 	}
+	// membership requests whose signature does not even decode, inside an event
+	// that its (Byzantine) creator signed properly
+	for i, ms := range malformedSigs {
+		m := ms
+		ts = append(ts, tamper{fmt.Sprintf("itx-remove-sig-malformed-%d", i), true, func(e *hg.Event, c *tctx) {
+			t := hg.NewInternalTransaction(hg.PEER_REMOVE, *peers.NewPeer(c.other.PubHex, "x", "x"))
+			t.Signature = m
+			e.Body.InternalTransactions = append(e.Body.InternalTransactions, t)
+		}})
+		if i%3 == 0 {
+			ts = append(ts, tamper{fmt.Sprintf("itx-add-sig-malformed-%d", i), true, func(e *hg.Event, c *tctx) {
+				t := hg.NewInternalTransaction(hg.PEER_ADD, *peers.NewPeer(c.foreign.PubHex, "x", "x"))
+				t.Signature = m
+				e.Body.InternalTransactions = append(e.Body.InternalTransactions, t)
+			}})
+		}
+	}
 	return ts
 }
 
@@ -365,21 +392,50 @@ func runAdmit(o *Opts) *Summary {
 		}
 		// validator n is a puppet (Byzantine key inside the set), the others are real cores
 		cn := &CoreNet{w: w, byNum: map[int]*CNode{}}
-		for _, k := range gen[:n-1] {
-			nd := w.NewCNode(w.parts[k-1], gen, gen, "inmem", 100000, "")
+		// "quiet" variant: the target's caches are small and the puppet stays silent for
+		// long stretches, so that its last event has left the target's event cache
+		// when the next offers arrive
+		quiet := o.Sched == "quiet"
+		period := 3
+		sinceOffer := 0 // quiet variant: events the target inserted since the puppet's last offers
+		for i, k := range gen[:n-1] {
+			cache := 100000
+			if quiet && i == 0 {
+				cache = o.Cache
+			}
+			nd := w.NewCNode(w.parts[k-1], gen, gen, "inmem", cache, "")
+			if quiet && i == 0 {
+				// (the specification does not model a cache smaller than the history)
+				nd.lost, nd.lostWhy = true, "small-cache"
+			}
 			cn.nodes = append(cn.nodes, nd)
 			cn.byNum[k] = nd
 		}
 		p := w.NewPNode(w.parts[n-1], gen)
 		p.tsGen = func() int64 { return time.Now().Unix() }
 		m := &mixedNet{cn: cn, puppets: map[int]*PNode{n: p}}
-		cn.EmitInit(map[string]interface{}{"sched": "admit", "seed": o.Seed*1000 + int64(t), "puppet": n, "nc": n + 1})
+		cn.EmitInit(map[string]interface{}{"sched": "admit", "seed": o.Seed*1000 + int64(t), "puppet": n, "nc": n + 1, "quiet": quiet})
+		validDesc := "valid"
+		if quiet {
+			// (an in-memory store whose cache is smaller than the history refuses valid
+			// events too: unsupported configuration, only admission of bad ones counts)
+			validDesc = "valid-small-cache"
+		}
 		tam := tamperings()
 		target := cn.nodes[0]
 		for k := 0; k < o.Steps; k++ {
 			// honest background gossip (the puppet takes part honestly too)
 			a := gen[w.rng.Intn(n)]
 			b := gen[w.rng.Intn(n)]
+			if quiet {
+				// the puppet is silent between its offers: honest nodes only
+				if n < 3 {
+					break
+				}
+				a = gen[w.rng.Intn(n-1)]
+				b = gen[w.rng.Intn(n-1)]
+			}
+			before := len(target.view)
 			if a != b {
 				if w.rng.Float64() < o.TxP {
 					if hn, ok := cn.byNum[a]; ok {
@@ -389,7 +445,14 @@ func runAdmit(o *Opts) *Summary {
 				}
 				m.exchange(a, b, 0, true)
 			}
-			if k < 10 || k%3 != 0 {
+			sinceOffer += len(target.view) - before
+			if quiet {
+				// offers only once enough newer events went through the target's cache
+				if sinceOffer < 2*o.Cache+6 {
+					continue
+				}
+				sinceOffer = 0
+			} else if k < 10 || k%period != 0 {
 				continue
 			}
 			// the puppet catches up with the target, then builds its next valid event
@@ -407,6 +470,17 @@ func runAdmit(o *Opts) *Summary {
 			if l1 := target.lastOf(target.num); l1 != nil {
 				op = l1.Hash
 			}
+			if quiet {
+				// (a target with a tiny cache stops creating events: any validator's last
+				// event that it can still read)
+				for _, c := range gen[:n-1] {
+					if l1 := target.lastOf(c); l1 != nil {
+						if _, err := target.store.GetEvent(l1.Hash); err == nil {
+							op = l1.Hash
+						}
+					}
+				}
+			}
 			valid := hg.NewEvent([][]byte{[]byte(fmt.Sprintf("ptx-%d-%d", t, k))}, nil, nil, []string{sp, op}, p.part.Pub, idx)
 			valid.Sign(p.part.Key)
 			ctx := &tctx{w: w, t: target, p: p, other: w.parts[1], foreign: w.parts[n]}
@@ -421,7 +495,7 @@ func runAdmit(o *Opts) *Summary {
 			// missing parent is delivered by an ordinary sync, then the same body is
 			// offered with another validator's signature (must be refused), twice,
 			// and finally the valid event (must be accepted).
-			if k%12 == 0 {
+			if k%12 == 0 && !quiet {
 				var src *CNode
 				var missing *EvInfo
 				for _, other := range cn.nodes[1:] {
@@ -457,6 +531,9 @@ func runAdmit(o *Opts) *Summary {
 				tm := tam[w.rng.Intn(len(tam))]
 				if o.Arg == "all" {
 					tm = tam[(k/3*6+q)%len(tam)]
+				}
+				if quiet && q < 3 {
+					tm = tam[[]int{6, 7, 4}[q]] // index-duplicate, index-zero, index-skipped on top of the evicted event
 				}
 				e := cloneEvent(valid)
 				func() {
@@ -502,9 +579,9 @@ func runAdmit(o *Opts) *Summary {
 			if l2 := target.lastOf(p.num); (l2 == nil && sp == "") || (l2 != nil && l2.Hash == sp) {
 				var acc bool
 				if k%2 == 0 {
-					acc = cn.offerFull(target, cloneEvent(valid), "valid")
+					acc = cn.offerFull(target, cloneEvent(valid), validDesc)
 				} else {
-					acc = cn.offerWire(target, p, cloneEvent(valid), "valid")
+					acc = cn.offerWire(target, p, cloneEvent(valid), validDesc)
 				}
 				offers++
 				if acc {
@@ -572,6 +649,7 @@ func (cn *CoreNet) offerWire(t *CNode, p *PNode, ev *hg.Event, desc string) (acc
 	before := t.stateDigest()
 	sb := t.beforeSync()
 	var err error
+	var rec0 *hg.Event
 	panicked := ""
 	func() {
 		defer func() {
@@ -586,22 +664,25 @@ func (cn *CoreNet) offerWire(t *CNode, p *PNode, ev *hg.Event, desc string) (acc
 			err = rerr
 			return
 		}
+		rec0 = rec
 		err = t.core.InsertEventAndRunConsensus(rec, false)
 	}()
 	// which event (if any) entered the store: the one the target reconstructed
 	accepted = false
 	var got *hg.Event
+	// (the event as resolved before the attempt: an insertion that overwrites a
+	// per-creator index entry makes a second resolution name another event)
 	func() {
 		defer func() { recover() }()
-		if rec, rerr := t.core.Hg().ReadWireInfo(we); rerr == nil {
-			if _, gerr := t.store.GetEvent(rec.Hex()); gerr == nil && !t.view[rec.Hex()] {
+		if rec0 != nil {
+			if _, gerr := peekEvent(t.store, rec0.Hex()); gerr == nil && !t.view[rec0.Hex()] {
 				accepted = true
-				got = rec
+				got = rec0
 			}
 		}
 	}()
 	if accepted {
-		if stored, e2 := t.store.GetEvent(got.Hex()); e2 == nil {
+		if stored, e2 := peekEvent(t.store, got.Hex()); e2 == nil {
 			got = stored
 		}
 		facts = t.factsOf(got) // facts of the event as the target reconstructed it
